@@ -2,6 +2,7 @@ package mon
 
 import (
 	"bytes"
+	"math/big"
 	"strings"
 	"sync"
 
@@ -46,6 +47,18 @@ func navDirectedDocs() [][]*model.Value {
 				[]*model.Value{model.StructV(f("$4", model.Int64V(1))), model.StructV(f("name", model.Int64V(2))), model.SymV(model.T("$4")), model.SymV(model.T("name"))},
 				[]*model.Value{model.StructV(f("symbols", model.Int64V(1)), f("$7", model.Int64V(2))), model.ListV(model.StructV(f("$7", model.SymV(model.T("$7")))), model.StructV(f("symbols", model.SymV(model.T("symbols")))))},
 			)
+		}
+		// integers at the edges of the widths IntSize names, read with the accessors in several orders
+		for rep := 0; rep < 8; rep++ {
+			var edge []*model.Value
+			for _, k := range []uint{7, 8, 15, 16, 31, 32, 63, 64} {
+				for _, d := range []int64{-1, 0, 1} {
+					p := new(big.Int).Lsh(big.NewInt(1), k)
+					p.Add(p, big.NewInt(d))
+					edge = append(edge, model.IntV(p), model.IntV(new(big.Int).Neg(p)))
+				}
+			}
+			navDocs = append(navDocs, edge, []*model.Value{model.ListV(model.CloneAll(edge[20:40])...), model.StructV(f("min32", model.Int64V(-2147483648)), f("min64", model.Int64V(-9223372036854775808)))})
 		}
 		// quote and backslash runs inside text that a skip has to scan without decoding (repeated:
 		// every copy is spelled differently)
